@@ -113,6 +113,7 @@ def run(res):
     res.obligations += ths
     res.discharged += ths
     res.coverage["print_assumptions"] = rep
+    facts_err = vlib.check_fact_props(res, "C06f", "panic-capable constructs of the run-time support crate")
     vlib.build_model_runner()
     ok, out = vlib.build_harness("rt")
     if not ok:
@@ -152,6 +153,7 @@ def run(res):
     for c, a in zip(cases, impl):
         k = parse(c)[0] + ":" + a.split()[0]
         kinds[k] = kinds.get(k, 0) + 1
+    vlib.report_fact_failure(res, "C06f", facts_err, "panic-capable constructs of the run-time support crate")
     res.coverage.update({
         "evaluations": len(cases), "distinct_nontrivial": st["distinct_nontrivial"],
         "rule": "random Unicode texts (1-4 byte characters, tabs, CR LF, empty, no trailing newline) x recorded quadruples "
